@@ -31,8 +31,10 @@ def main():
     assert diff.strip(), 'no change in worktree'
     open(os.path.join(d, 'patch.diff'), 'w').write(diff)
     demo = os.path.join(wt, 'demo_break.py')
-    if os.path.exists(demo):
-        shutil.copy(demo, os.path.join(d, 'demo_break.py'))
+    rc, others = sh('git ls-files --others --exclude-standard', cwd=wt)
+    for f in others.split():
+        if f.endswith('.py') and '/' not in f:      # the demonstration and the program(s) it launches
+            shutil.copy(os.path.join(wt, f), os.path.join(d, f))
     meta = {'name': name, 'property': prop, 'ran': []}
     # tests with the change
     rc, out = sh('/venv/bin/python -m pytest -q -p no:cacheprovider 2>&1 | tail -1', cwd=wt)
